@@ -13,4 +13,5 @@ Emit ==
                             files |-> IF last'.op = "finalize" /\ last'.res = "Ok" THEN Files' ELSE <<>>,
                             stream |-> IF last'.op = "finalize" /\ last'.res = "Ok" THEN stream' ELSE <<>> ])>>)
 InitPrint == (last.op = "new") => PrintT(<<"INIT", ToJson(eff)>>)
+LongMinFinal == 45
 =============================================================================
